@@ -9,9 +9,9 @@ compares what it observes with the dataflow semantics of the property statements
 interpreter over the pipeline description (`Ref` below).
 
 Bound (stated in the evidence):
-  acyclic family   12 templates (plain, shared, switch, one-of, nested constructs; <= 8 node classes) x every placement of at
-                   most one failing node x both switch labels x 5 completion orders; each chart is run, run again, and run
-                   twice overlapped
+  acyclic family   13 templates (plain, shared, switch, one-of, nested constructs; <= 8 node classes) x every placement of at
+                   most one failing node x both switch labels x 5 completion orders; each chart is run, run again, run
+                   twice overlapped, and (after a failing placement) run once more with nothing failing
   retry family     attempts in {1,2,3} x use_default x exceptions in {narrow, default} x every outcome sequence over
                    {ok, retryable, non-retryable} of length attempts
   recurrent family 3 templates x requested re-iterations 0..max_iterations+1 x default / no default; a retrying node
@@ -20,7 +20,8 @@ Bound (stated in the evidence):
 Outside the family on purpose (genuine known findings of the unchanged tree, each with its own obligation and
 demonstration): candidates returning None, switch labels matching no case, a case node that another consumer also uses,
 a candidate that depends on another one-of's consumer, switch / one-of inside a recurrent subgraph, collaborators (event
-managers, stores) that raise or suspend, cancellation by the caller.
+managers, stores) that raise or suspend, cancellation by the caller; a second save of the same value for a node that two
+scopes request (C19 known finding) is tolerated in the one template that has such a node.
 
 usage: /venv/bin/python bounded/engine.py [--json FILE] [--only acyclic|retry|recurrent]
 """
@@ -40,7 +41,7 @@ from ml_pipeline_engine.node import ProcessorBase, RecurrentProcessor
 import logging
 logging.disable(logging.CRITICAL)
 
-BOUND = ('acyclic: 12 templates x <=1 failing node at every position x both switch labels x 5 completion orders x '
+BOUND = ('acyclic: 13 templates x <=1 failing node at every position x both switch labels x 5 completion orders x '
          '(first run, second run, two overlapped runs); retry: attempts 1..3 x use_default x narrow/default exceptions x '
          'all outcome sequences; recurrent: 3 templates x 0..max+1 requested re-iterations x default / no default, and a retrying '
          'node inside a recurrent subgraph x 25 outcome sequences')
@@ -184,6 +185,10 @@ def acyclic_templates():
         In=RAW, D=[('d', ('in', 'In'))], A=[('a', ('in', 'In'))], BS=[('s', ('in', 'In'))], B=[('b', ('in', 'BS'))],
         F=[('f', ('oneof', ['A', 'B']))], G=[('g', ('in', 'F'))], Y=[('y', ('in', 'In'))],
         Out=[('p', ('sw', 'D', [('l0', 'G'), ('l1', 'Y')])), ('q', ('in', 'F'))])))
+    T.append(('shared-node-behind-a-switch-branch-and-the-main-pipeline', dict(
+        In=RAW, D=[('d', ('in', 'In'))], Pre=[('p', ('in', 'In'))], Pre2=[('p', ('in', 'Pre'))], Shared=[('s', ('in', 'Pre2'))],
+        A=[('a', ('in', 'Shared'))], B=[('b', ('in', 'In'))], F=[('f', ('in', 'In'))],
+        Out=[('p', ('sw', 'D', [('l0', 'A'), ('l1', 'B')])), ('q', ('in', 'Shared')), ('r', ('in', 'F'))])))
     return T
 
 
@@ -420,8 +425,11 @@ def check_acyclic(tname, spec, tag, key, cfg, kind, res, obs, case):
                 saves.setdefault(n, []).append(v)
         for n in count:
             r = ref.memo.get(n)
-            if r is not None and r[0] == 'ok' and n in ref.kwargs and saves.get(nid(n), []) != [r[1]]:
-                fail('C19', tname, case, f'{nid(n)} saved {saves.get(nid(n), [])}', f'exactly once, value {r[1]}')
+            got = saves.get(nid(n), [])
+            if r is not None and r[0] == 'ok' and n in ref.kwargs and got != [r[1]]:
+                if got == [r[1], r[1]] and tname.startswith('shared-node-behind-a-switch-branch'):
+                    continue    # recorded known finding (C19): a node requested by two scopes hands its value to the store twice
+                fail('C19', tname, case, f'{nid(n)} saved {got}', f'exactly once, value {r[1]}')
 
 
 def known_excluded(tname, spec, failing, label):
@@ -465,6 +473,20 @@ async def acyclic(only_templates=None):
                             hung = hung or kind == 'hung'
                         if hung:
                             break
+                    if not hung and failing:
+                        # C07: a failure in an earlier run leaves no trace on the chart: the same chart, now with nothing
+                        # failing, behaves like a fresh one
+                        N_CASES[0] += 1
+                        healthy = dict(cfg, failing=frozenset())
+                        cfg['failing'] = frozenset()
+                        kind, res = await run_keyed(chart, 5, obs)
+                        await settle(obs, tname, f'{case} then a run with nothing failing')
+                        n0 = len(FAILURES)
+                        check_acyclic(tname, spec, tag, 5, healthy, kind, res, obs, f'{case} then a run of the same chart with nothing failing')
+                        for f_ in list(FAILURES[n0:]):
+                            if f_['property'] != 'C07':
+                                FAILURES.append(dict(f_, property='C07'))     # the chart is not reusable (as well)
+                        cfg['failing'] = failing
                     if hung and failing:
                         break       # one schedule is enough to report a hang of this placement
 
@@ -684,10 +706,12 @@ async def recurrent():
                 outs = [kw for _k, n, kw in obs.calls if n == 'Out']
                 if final is not None:
                     if outs != [dict(r=final, z=15)]:
-                        fail('C11', 'recurrent', case, f'consumer of the destination invoked with {outs}',
-                             f'once, with r={final} (the first non-Recurrent result{" / get_default()" if exhausted else ""})')
+                        for prop_ in ('C11', 'C03'):
+                            fail(prop_, 'recurrent', case, f'consumer of the destination invoked with {outs}',
+                                 f'once, with r={final} (the first non-Recurrent result{" / get_default()" if exhausted else ""})')
                     if res.error is not None or res.value != final + 15:
-                        fail('C11', 'recurrent', case, f'value={res.value!r} error={res.error!r}', f'value={final + 15}')
+                        for prop_ in ('C11', 'C01'):
+                            fail(prop_, 'recurrent', case, f'value={res.value!r} error={res.error!r}', f'value={final + 15}')
                 else:
                     if outs:
                         fail('C11', 'recurrent', case, f'consumer invoked with {outs}', 'not invoked: iterations exhausted without default')
